@@ -77,6 +77,45 @@ def _taint(v: Any, params: Dict[int, str], depth: int = 0) -> Set[str]:
     return set()
 
 
+def _is_san_result(v: Any) -> bool:
+    c = v.meta.get("call") if isinstance(v, SObj) else (v.__dict__.get("call") if isinstance(v, SOpaque) else None)
+    return c is not None and getattr(c.get("func"), "qual", "") == SAN
+
+
+def _reaches_obj(v: Any, pred: Any, depth: int = 0) -> bool:
+    """Does the value (a call result, a construction, a list, a splat ...) contain an object satisfying pred?"""
+    if depth > 8 or v is None:
+        return False
+    if isinstance(v, SObj) and pred(v):
+        return True
+    if isinstance(v, SSplat):
+        return _reaches_obj(v.value, pred, depth + 1)
+    if isinstance(v, SList):
+        return any(_reaches_obj(i, pred, depth + 1) for i in v.items) or (v.base is not None and _reaches_obj(v.base, pred, depth + 1))
+    if isinstance(v, SNew):
+        return any(_reaches_obj(a, pred, depth + 1) for a in list(v.args) + list(v.star) + list(v.kwargs.values()))
+    if isinstance(v, (list, tuple)):
+        return any(_reaches_obj(a, pred, depth + 1) for a in v)
+    c = v.meta.get("call") if isinstance(v, SObj) else (v.__dict__.get("call") if isinstance(v, SOpaque) else None)
+    if c is not None:
+        return _reaches_obj(c.get("recv"), pred, depth + 1) or any(_reaches_obj(a, pred, depth + 1) for a in c.get("args", []))
+    if isinstance(v, SOpaque):
+        for key in ("of", "copy_of"):
+            if key in v.__dict__ and _reaches_obj(v.__dict__[key], pred, depth + 1):
+                return True
+        return any(_reaches_obj(o, pred, depth + 1) for o in v.__dict__.get("operands", ()))
+    if isinstance(v, SObj):
+        for key in ("attr_of", "item_of", "list_of", "copy_of"):
+            b = v.meta.get(key)
+            if b is not None and _reaches_obj(b[0] if isinstance(b, tuple) else b, pred, depth + 1):
+                return True
+    return False
+
+
+def _reaches(v: Any, pname: str, params: Dict[int, str]) -> bool:
+    return _reaches_obj(v, lambda o: params.get(o.uid) == pname)
+
+
 def _mentions_param(v: Any, pname: str, params: Dict[int, str], depth: int = 0) -> bool:
     if depth > 6:
         return False
@@ -113,6 +152,7 @@ def _run_method(ctx: Ctx, I: Interp, ci: ClassInfo, fn: ast.FunctionDef, meth: s
             l.pytype = "tuple"
             b[fn.args.vararg.arg] = l
             params[o.uid] = "*" + fn.args.vararg.arg
+            run.__dict__["vararg_tuple_uid"] = getattr(l, "uid", None)
         run.__dict__["params"] = params
         run.__dict__["self_obj"] = s
         return b, s
@@ -228,6 +268,43 @@ def check(ctx: Ctx) -> None:
                 ctx.require(good, f"TagList.insert does not splice the normalised nodes with one `self[i:i] = nodes` "
                                   f"(found {[repr(e)[:70] for _, e, _ in sinks]}): order of the inserted nodes for all indices cannot be decided")
                 ctx.ok("C14.splice", "TagList.insert splices the normalised nodes at [i:i] in one slice assignment")
+            # completeness: what the caller passed actually ends up in the list
+            content = [a.arg for a in fn.args.args[1:] if not (meth == "insert" and a is fn.args.args[1])] + \
+                ([("*" + fn.args.vararg.arg)] if fn.args.vararg else [])
+            if own and l.kind == "return" and meth in ("__init__", "append", "extend", "__iadd__", "insert"):
+                stored = [val for _, _, val in sinks if _is_san_result(val) or _reaches_obj(val, _is_san_result)]
+                missing = [pn for pn in content if not any(_reaches(v_, pn, params) for v_ in stored)]
+                # an argument the path has established to be empty contributes nothing
+                empties = set()
+                vu = l.run.__dict__.get("vararg_tuple_uid")
+                names_ = dict(params)
+                if vu is not None and fn.args.vararg:
+                    names_[vu] = "*" + fn.args.vararg.arg
+                for a_, v_ in l.atoms:
+                    if isinstance(a_, tuple) and len(a_) > 1 and a_[1] in names_:
+                        if (a_[0] == "nonempty" and v_ is False) or (a_[0] == "len-cmp" and (a_[2], a_[3]) == ("==", 0) and v_ is True):
+                            empties.add(names_[a_[1]])
+                for a_, v_ in []:
+                    if isinstance(a_, tuple) and len(a_) > 1 and a_[1] in params:
+                        if (a_[0] == "nonempty" and v_ is False) or (a_[0] == "len-cmp" and (a_[2], a_[3]) == ("==", 0) and v_ is True):
+                            empties.add(params[a_[1]])
+                        if a_[0] == "count" and str(v_) == "n=0":
+                            empties.add(("count", params[a_[1]]))
+                for pn in list(missing):
+                    cs_ = [str(v_) for a_, v_ in l.atoms if isinstance(a_, tuple) and a_[0] == "count" and len(a_) > 1 and params.get(a_[1]) == pn]
+                    if pn in empties or (cs_ and all(c == "n=0" for c in cs_)):
+                        missing.remove(pn)
+                labels = [str(lbl) for _, lbl in l.atoms][:2]
+                ctx.check(not missing, "C14.stores", f"`{op}` stores the normalised nodes of its argument(s)", where,
+                          f"path {labels}: stored {[short(v_) for v_ in stored][:2]}; arguments {content}",
+                          f"`{op}` returns without storing the normalised nodes of `{missing[0] if missing else ''}` (path {labels}): the children passed are silently lost",
+                          witness=f"tl = TagList('a'); tl {'+=' if meth == '__iadd__' else '.' + meth} ...; list(tl)")
+            if own and l.kind == "return" and meth in ("__add__", "__radd__"):
+                v_ = l.value
+                s_ = l.run.__dict__["self_obj"]
+                both = isinstance(v_, SNew) and _reaches_obj(v_, lambda o: o is s_) and all(_reaches(v_, pn, params) for pn in content)
+                ctx.check(bool(both), "C14.stores", f"`{op}` builds its result from the list and the operand", where, f"returns {short(v_)}",
+                          f"`{op}` returns {short(v_)}: not a TagList built from both the list and the operand")
             # constructions handed to the caller
             if l.kind == "return" and isinstance(l.value, SNew) and isinstance(l.value.cls, ClassInfo):
                 ctx.check(prog.is_subclass(l.value.cls, "TagList"), "C14.taint", f"`{op}` returns a TagList built by its constructor",
@@ -306,15 +383,16 @@ def normaliser_tables(ctx: Ctx) -> None:
     ctx.check(node_tbl.get("STR") is True, "C14.accept", "converted numbers (str) satisfy is_tag_node", f"{CORE}:is_tag_node", "STR", "str is not a tag node")
 
 
-def _delegates(ctx: Ctx, I: Interp, meth: str) -> None:
+def _delegates(ctx: Ctx, I: Interp, meth: str, cls: str = "Tag", mod: str = CORE, kind: str = "TAG", field: str = "children",
+               rule: str = "C14.delegate") -> None:
     prog = ctx.prog
-    fn = prog.function(CORE, f"Tag.{meth}")
+    fn = prog.function(mod, f"{cls}.{meth}")
     cfg = Config()
     cfg.opaque = {f"TagList.{meth}"}
-    where = f"{CORE}:Tag.{meth}"
+    where = f"{mod}:{cls}.{meth}"
 
     def mk(run: Any) -> Tuple[Dict[str, Any], Any]:
-        s = SObj("self", {"TAG"})
+        s = SObj("self", {kind})
         b: Dict[str, Any] = {fn.args.args[0].arg: s}
         objs = []
         for a in fn.args.args[1:]:
@@ -331,17 +409,17 @@ def _delegates(ctx: Ctx, I: Interp, meth: str) -> None:
         run.__dict__["self_obj"] = s
         return b, s
 
-    for l in I.run_function(CORE, f"Tag.{meth}", mk, cfg):
+    for l in I.run_function(mod, f"{cls}.{meth}", mk, cfg):
         s = l.run.__dict__["self_obj"]
         objs = l.run.__dict__["objs"]
         calls = [e for e in l.effects if e.kind == "call" and getattr(e.target, "qual", "") == f"TagList.{meth}"]
         other = [e for e in l.effects if e.kind in ("store_attr", "store_item", "store_slice", "mutcall")]
-        ok = len(calls) == 1 and calls[0].key is s.attrs.get("children") and not other
+        ok = len(calls) == 1 and calls[0].key is s.attrs.get(field) and not other
         if ok:
             flat = []
             for a in calls[0].value:
                 flat.append(a.value if isinstance(a, SSplat) else a)
             ok = len(flat) == len(objs) and all(x is y for x, y in zip(flat, objs))
-        ctx.check(ok, "C14.delegate", f"Tag.{meth} only forwards its arguments to self.children.{meth}", where,
+        ctx.check(ok, rule, f"{cls}.{meth} only forwards its arguments to self.{field}.{meth}", where,
                   f"effects {[repr(e)[:60] for e in l.effects]}",
-                  f"Tag.{meth} does not simply delegate to self.children.{meth} with the same arguments")
+                  f"{cls}.{meth} does not simply delegate to self.{field}.{meth} with the same arguments: children added this way are lost, duplicated or not normalised")
